@@ -310,6 +310,88 @@ Lemma ex_font_size :
   /\ ap_quant font_size_prop (plain (PStr (s2l "x"))) = Err ValueErr.
 Proof. vm_compute. auto. Qed.
 
+(** * Legend.horz_offset: builder (E), a value child (c:x) that counts only while the mode child (c:xMode) reads factor.
+      The theorems quantify over EVERY well-formed element state, so also over the states only another producer
+      writes (c:xMode val=edge, a c:x without c:xMode, ...). *)
+Definition dbl_c : codec := ad_codec A_CT_Double__val.
+
+Lemma horz_offset_in_catalogue :
+  find_entry (s2l "Legend.horz_offset") = Some (mk "Legend" "horz_offset" "" horz_offset_get horz_offset_set).
+Proof. reflexivity. Qed.
+
+Lemma ho_box_nonroot : ho_box <> [].
+Proof. discriminate. Qed.
+
+Lemma ho_chain s : WF s -> exists s1, chain_exec layout_ch s = (s1, true) /\ present (parent ho_box) s1 = true.
+Proof.
+  intros Hwf. destruct (chain_exec_top (pth "c:layout") [] (Ok f_zero) s eq_refl) as [s1 H1].
+  exists s1. split; [exact H1|].
+  destruct (chain_exec_ok _ _ _ Hwf H1) as [_ [Hall _]]. cbn [forallb] in Hall.
+  apply andb_true_iff in Hall as [Hl _]. exact Hl.
+Qed.
+
+(** C09_get_set: an accepted offset other than 0 reads back as stored and the mode reads factor afterwards *)
+Theorem horz_offset_get_set v s : WF s ->
+  accepts dbl_c AReq (av_val v) = true -> py_eqb (av_val v) f_zero = false ->
+  snd (run horz_offset_set v s) = Ok tt
+  /\ eval horz_offset_get (fst (run horz_offset_set v s)) = stored dbl_c AReq (av_val v)
+  /\ attr_get ho_m (ad_attr A_CT_LayoutMode__val) (ad_codec A_CT_LayoutMode__val) (ad_kind A_CT_LayoutMode__val)
+              (fst (run horz_offset_set v s)) = Ok mode_factor
+  /\ WF (fst (run horz_offset_set v s)).
+Proof.
+  intros Hwf Hacc Hnz. destruct (ho_chain s Hwf) as [s1 [Hch Hpar]]. unfold horz_offset_set, horz_offset_get.
+  exact (moded_prop_get_set layout_ch ho_box ho_m ho_x (CEq f_zero) (Ok f_zero) A_CT_LayoutMode__val mode_factor A_CT_Double__val
+           ho_box_nonroot eq_refl eq_refl eq_refl v s s1 mode_factor Hwf Hch Hpar Hnz Hacc eq_refl eq_refl eq_refl).
+Qed.
+
+(** C09_none (the documented way back to the default position): 0 removes c:manualLayout and the property reads 0.0 *)
+Theorem horz_offset_zero v s : WF s ->
+  accepts dbl_c AReq (av_val v) = true -> py_eqb (av_val v) f_zero = true ->
+  snd (run horz_offset_set v s) = Ok tt
+  /\ present ho_box (fst (run horz_offset_set v s)) = false
+  /\ eval horz_offset_get (fst (run horz_offset_set v s)) = Ok f_zero.
+Proof.
+  intros Hwf Hacc Hz. destruct (ho_chain s Hwf) as [s1 [Hch Hpar]].
+  destruct (moded_prop_zero layout_ch ho_box ho_m ho_x (CEq f_zero) (Ok f_zero) A_CT_LayoutMode__val mode_factor A_CT_Double__val
+              ho_box_nonroot eq_refl eq_refl eq_refl v s s1 Hwf Hch Hpar Hz Hacc) as [A B].
+  unfold horz_offset_set, horz_offset_get. rewrite A. cbn [fst snd]. repeat split; auto.
+  rewrite present_del_sub. change ho_box with (s2l "c:layout" :: [s2l "c:manualLayout"]). rewrite is_prefix_refl. auto.
+Qed.
+
+(** C09_reject: XsdDouble.to_xml refuses before anything is touched *)
+Theorem horz_offset_reject v s : accepts dbl_c AReq (av_val v) = false ->
+  exists e, enc dbl_c (av_val v) = Err e /\ run horz_offset_set v s = (s, Err e).
+Proof.
+  intros Hacc. unfold horz_offset_set.
+  exact (moded_prop_reject layout_ch ho_box ho_m ho_x (CEq f_zero) A_CT_LayoutMode__val mode_factor A_CT_Double__val v s Hacc).
+Qed.
+
+(** a mode another producer wrote: the reader answers 0.0 whatever c:x holds *)
+Theorem horz_offset_foreign_mode s mode : present (pth "c:layout") s = true ->
+  attr_get ho_m (ad_attr A_CT_LayoutMode__val) (ad_codec A_CT_LayoutMode__val) (ad_kind A_CT_LayoutMode__val) s = Ok mode ->
+  py_eqb mode mode_factor = false -> eval horz_offset_get s = Ok f_zero.
+Proof.
+  intros Hl Hm Hne. unfold horz_offset_get.
+  apply (moded_foreign_mode_reads_off layout_ch ho_box ho_m ho_x (Ok f_zero) A_CT_LayoutMode__val mode_factor A_CT_Double__val s mode f_zero);
+    auto; [|discriminate].
+  cbn [forallb layout_ch lv lv_path]. rewrite Hl. auto.
+Qed.
+
+(** non-vacuity, from a foreign pre-state: the legend was dragged in PowerPoint (mode edge, absolute position 0.7) *)
+Definition w_legend_edge : st :=
+  [ ((pth "c:layout", None), []); ((ho_box, None), []); ((ho_m, None), []); ((ho_m, Some (s2l "val")), s2l "edge");
+    ((ho_x, None), []); ((ho_x, Some (s2l "val")), s2l "0.7") ].
+Definition quarter : aval := plain (PFloat (Fin 1 (-2))).
+Lemma ex_horz_offset_from_edge :
+  wf w_legend_edge = true
+  /\ eval horz_offset_get w_legend_edge = Ok f_zero
+  /\ accepts dbl_c AReq (av_val quarter) = true /\ py_eqb (av_val quarter) f_zero = false
+  /\ snd (run horz_offset_set quarter w_legend_edge) = Ok tt
+  /\ eval horz_offset_get (fst (run horz_offset_set quarter w_legend_edge)) = Ok (PFloat (Fin 1 (-2)))
+  /\ lookup (ho_m, Some (s2l "val")) (fst (run horz_offset_set quarter w_legend_edge)) = None
+  /\ stored dbl_c AReq (av_val quarter) = Ok (PFloat (Fin 1 (-2))).
+Proof. vm_compute. auto 10. Qed.
+
 (** * exact read-back (quantum 0: 1 EMU) for the coordinate types whose reader also accepts
       universal measures (outside C11_RT): position, margins *)
 Close Scope lit_scope.
